@@ -1,7 +1,11 @@
 package props
 
 import (
+	"encoding/json"
 	"fmt"
+	"os"
+	"os/exec"
+	"path/filepath"
 	"strings"
 	"testing"
 	"unicode/utf8"
@@ -106,6 +110,9 @@ func c04Record(col *collector, c c04Case) {
 	}
 	if m.Depth() >= 6 {
 		cl = append(cl, "deep>=6")
+	}
+	if m.Depth() >= 34 {
+		cl = append(cl, "deep>=34")
 	}
 	col.eval(hostile && m.Depth() >= 2, hash64(c.Forest.String(), c.Format, c.Entry), cl...)
 	col.sample(func() any { return map[string]any{"forest": c.Forest.String(), "format": c.Format, "entry": c.Entry} })
@@ -242,16 +249,72 @@ func c04Gen() *rapid.Generator[c04Case] {
 			return s
 		})
 		names := rapid.OneOf(sampled(pool), sampled(pool), free)
-		maxNodes := 12
-		if rapid.IntRange(0, 19).Draw(t, "big") == 0 {
+		maxNodes, maxDepth := 12, 10
+		switch rapid.IntRange(0, 19).Draw(t, "big") {
+		case 0:
 			maxNodes = 100
+		case 1, 2: // deep nesting (up to 90 levels)
+			maxNodes, maxDepth = 200, 90
 		}
-		f := genForest(forestParams{maxNodes: maxNodes, maxDepth: 10, names: names, oneRoot: format == "toml" || entry == "root"}).Draw(t, "forest")
+		f := genForest(forestParams{maxNodes: maxNodes, maxDepth: maxDepth, names: names, oneRoot: format == "toml" || entry == "root"}).Draw(t, "forest")
 		return c04Case{Forest: f, Format: format, Entry: entry}
 	})
 }
 
+// second opinion (thorough tier): a sample of the outputs is decoded again by python3 (json, PyYAML, tomllib), which shares
+// no code with the Go decoders, to guard against a symmetric bug in the Go YAML/TOML libraries used on both sides.
+type c04Sample struct {
+	ID     int    `json:"id"`
+	Format string `json:"format"`
+	Out    []byte `json:"out"`
+	Want   []any  `json:"want"`
+}
+
+func forestToAny(f model.Forest) []any {
+	var out []any
+	for _, t := range f {
+		out = append(out, []any{t.Name, forestToAny(t.Kids)})
+	}
+	if out == nil {
+		out = []any{}
+	}
+	return out
+}
+
+func c04SecondOpinion(t *testing.T, col *collector, samples []c04Sample) {
+	if len(samples) == 0 || outDir == "" {
+		return
+	}
+	path := filepath.Join(outDir, fmt.Sprintf("c04.samples.%d.jsonl", shard))
+	var sb strings.Builder
+	for _, s := range samples {
+		b, _ := json.Marshal(s)
+		sb.Write(b)
+		sb.WriteByte('\n')
+	}
+	if err := os.WriteFile(path, []byte(sb.String()), 0o644); err != nil {
+		return
+	}
+	out, err := exec.Command("python3", filepath.Join("..", "..", "tools", "second_opinion.py"), path).CombinedOutput()
+	if err != nil {
+		col.note("python3 second opinion not available: " + err.Error())
+		return
+	}
+	lines := strings.Split(strings.TrimSpace(string(out)), "\n")
+	col.note("python3 second opinion: " + lines[len(lines)-1])
+	for _, l := range lines {
+		if strings.HasPrefix(l, "MISMATCH") {
+			violation(t, "C04", "c04py", map[string]string{"line": l}, "python3 decodes gtree's output to a different structure than the tree:\n"+l)
+		}
+		if strings.HasPrefix(l, "DECODE-ERROR") {
+			col.class("python-decoder-rejects(observation)")
+		}
+	}
+}
+
 func TestC04Random(t *testing.T) {
+	var samples []c04Sample
+	defer func() { c04SecondOpinion(t, coll("C04", "random"), samples) }()
 	col := coll("C04", "random")
 	col.Rule = "rapid: forests with names weighted towards an encoding-hostile pool (quotes, colons, hashes, backslashes, YAML/TOML keywords, control characters, Unicode line separators, BOM; From-Root additionally newlines and empty names) x format x entry; non-trivial = some name needs quoting and depth>=2"
 	rapid.Check(t, func(rt *rapid.T) {
@@ -264,5 +327,52 @@ func TestC04Random(t *testing.T) {
 		if msg := c04Check(c); msg != "" {
 			violation(rt, "C04", "c04", c, msg)
 		}
+		if thorough() && len(samples) < 4000 && c.Entry != "root" {
+			if out, err, pan := outputMD(model.Spell(c.Forest, model.Plain2), ops.Opts{Encode: c.Format, NoIter: c.Entry == "noiter"}); err == nil && pan == "" {
+				samples = append(samples, c04Sample{ID: len(samples), Format: c.Format, Out: []byte(out), Want: forestToAny(model.Merge(c.Forest))})
+			}
+		}
 	})
+}
+
+// An encoded output must be well-formed and isomorphic whatever happened before in the process: here an earlier encoded
+// output whose writer failed (at every write index, plain and short writes) precedes the checked call.
+func TestC04AfterFault(t *testing.T) {
+	col := coll("C04", "after-fault")
+	col.Rule = "history: an encoded output (same or other format) whose writer fails at write index j (plain / short write), then the checked encoded output with a healthy writer must still decode to the tree; all forests <=3 nodes + 2 extra roots x formats x j in 0..5 x simple/massive"
+	i := 0
+	model.EnumForests(3, []string{"a", "b"}, func(f0 model.Forest) {
+		i++
+		if i%nshards != shard {
+			return
+		}
+		f := append(f0.Clone(), &model.T{Name: "x", Kids: []*model.T{{Name: "y"}}})
+		for fi, format := range []string{"json", "yaml", "toml"} {
+			ff := f
+			if format == "toml" {
+				ff = model.Forest{f[len(f)-1]}
+			}
+			for j := 0; j < 6; j++ {
+				for _, massive := range []bool{false, true} {
+					bad := ops.NewCase("output", "md")
+					bad.Doc = []byte(model.Spell(f, model.Plain2))
+					bad.Opts.Encode = []string{"json", "yaml", "json"}[(fi+j)%3]
+					bad.Opts.Massive = massive
+					bad.Faults.WriterFailAt = j
+					bad.Faults.WriterShort = j % 2
+					ops.DefaultEnv.Run(&bad)
+					c := c04Case{Forest: ff, Format: format, Entry: []string{"md", "noiter", "root"}[j%3]}
+					if c.Entry == "root" && len(ff) != 1 {
+						c.Entry = "md"
+					}
+					col.eval(true, hash64(ff.String(), format, fmt.Sprint(j, massive)), "after-failed-write", "format:"+format)
+					col.sample(func() any { return map[string]any{"first": "encoded output, writer fails at write " + fmt.Sprint(j), "then": c} })
+					if msg := c04Check(c); msg != "" {
+						violation(t, "C04", "c04", c, "after an earlier encoded output whose writer failed at write "+fmt.Sprint(j)+":\n"+msg)
+					}
+				}
+			}
+		}
+	})
+	col.Exhaustive = true
 }
